@@ -1677,8 +1677,8 @@ impl AnnotationStore {
                         }
                     }
                     (
-                        Selector::AnnotationSelector(annotation, Some(_)),
-                        Selector::AnnotationSelector(annotation2, Some(_)),
+                        Selector::AnnotationSelector(annotation, Some((_, _, OffsetMode::BeginBegin))),
+                        Selector::AnnotationSelector(annotation2, Some((_, _, OffsetMode::BeginBegin))),
                     ) => {
                         if annotation2.as_usize() == annotation.as_usize() + 1 {
                             //we can only merge annotations that reference the entire underlying annotation's text and not a subpart of it
@@ -1706,7 +1706,7 @@ impl AnnotationStore {
                             end,
                             with_text: true,
                         },
-                        Selector::AnnotationSelector(annotation, Some(_)),
+                        Selector::AnnotationSelector(annotation, Some((_, _, OffsetMode::BeginBegin))),
                     ) => {
                         if annotation.as_usize() == end.as_usize() + 1 {
                             //we can only merge annotations that reference the entire underlying annotation's text and not a subpart of it
